@@ -5,6 +5,9 @@ import (
 	"go/constant"
 	"go/token"
 	"go/types"
+	"os"
+	"os/exec"
+	"path/filepath"
 	"strings"
 	"sync"
 
@@ -202,9 +205,43 @@ func (ex *Exec) checkWith(c *Term, keep bool) string {
 	}
 	ex.s.Pop()
 	if r == "unknown" {
+		r = ex.fallbackCheck(c)
+		if r == "sat" && keep {
+			ex.modelValid = false
+		}
+	}
+	if r == "unknown" {
 		ex.incomplete = "solver unknown/timeout"
 	}
 	return r
+}
+
+// fallbackCheck re-decides pc ∧ c as a standalone script with the other installed solvers
+// (z3 5.1.0, then cvc5) when the incremental z3 answered unknown.
+func (ex *Exec) fallbackCheck(c *Term) string {
+	script := standalone(append(append([]*Term{}, ex.pc...), c))
+	dir := filepath.Join(verifRoot, ".work")
+	os.MkdirAll(dir, 0755)
+	f, err := os.CreateTemp(dir, "fb-*.smt2")
+	if err != nil {
+		return "unknown"
+	}
+	defer os.Remove(f.Name())
+	f.WriteString(script)
+	f.Close()
+	ex.eng.fallbacks.Add(1)
+	for _, cmd := range [][]string{{"z3-new", "-T:40", f.Name()}, {"cvc5", "--tlimit=40000", f.Name()}} {
+		out, _ := exec.Command(cmd[0], cmd[1:]...).CombinedOutput()
+		o := strings.TrimSpace(string(out))
+		if strings.Contains(o, "(error") {
+			continue
+		}
+		if o == "sat" || o == "unsat" {
+			ex.eng.fallbackOK.Add(1)
+			return o
+		}
+	}
+	return "unknown"
 }
 
 func (ex *Exec) fetchModel() {
